@@ -38,6 +38,10 @@ use world::*;
 
 const K_VALUE: usize = 20;
 const CLOSE_GROUP: usize = 5;
+/// the property's reading of "periodic": a trigger inside this many seconds of the previous one may be skipped
+const MIN_INTERVAL_S: u64 = 30;
+/// a target that received a list less than this many seconds ago need not be served again
+const TARGET_TIMEOUT_S: u64 = 45;
 
 struct Universe {
     peer_ids: HashMap<PeerId, u64>,
@@ -104,8 +108,12 @@ struct Ctx {
     seeded: BTreeMap<u64, Vec<Content>>,
     history: Vec<String>,
     lossy: bool,
-    /// nodes whose periodic replication has already served targets in this history (their targets may be throttled)
-    served: Vec<bool>,
+    /// simulated seconds elapsed at each node (sum of its ticks)
+    clock: Vec<u64>,
+    /// node clock at its last periodic-replication trigger that was not inside the minimum interval
+    last_trigger: Vec<Option<u64>>,
+    /// per node: peer -> node clock when the peer last received a Replicate list from it
+    served_at: Vec<BTreeMap<u64, u64>>,
     slow_histories: u64,
 }
 
@@ -267,6 +275,11 @@ fn strip_witness(line: &str) -> String {
 fn exec(ctx: &mut Ctx, out: &mut Out, line: &str) {
     let base = strip_witness(line);
     let ws: Vec<&str> = base.split_whitespace().collect();
+    if ws.first() == Some(&"new") {
+        ctx.history.clear();
+    }
+    // the op being executed is part of the history an oracle failure reports
+    ctx.history.push(base.clone());
     let r = catch_unwind(AssertUnwindSafe(|| exec_inner(ctx, out, &ws)));
     let (op, res) = match r {
         Ok(Some((witness, res))) => {
@@ -279,10 +292,9 @@ fn exec(ctx: &mut Ctx, out: &mut Out, line: &str) {
         Ok(None) => (base.clone(), "bad-op".to_string()),
         Err(_) => (base.clone(), "panic".to_string()),
     };
-    if ws.first() == Some(&"new") {
-        ctx.history.clear();
+    if let Some(last) = ctx.history.last_mut() {
+        *last = op.clone();
     }
-    ctx.history.push(op.clone());
     out.line(op, res);
 }
 
@@ -313,7 +325,9 @@ fn exec_inner(ctx: &mut Ctx, out: &mut Out, ws: &[&str]) -> Option<(Option<Strin
             ctx.held = vec![BTreeMap::new(); n as usize];
             ctx.seeded.clear();
             ctx.lossy = false;
-            ctx.served = vec![false; n as usize];
+            ctx.clock = vec![0; n as usize];
+            ctx.last_trigger = vec![None; n as usize];
+            ctx.served_at = vec![BTreeMap::new(); n as usize];
             out.count("history");
             Some((None, "ok".into()))
         }
@@ -412,6 +426,7 @@ fn exec_inner(ctx: &mut Ctx, out: &mut Out, ws: &[&str]) -> Option<(Option<Strin
             }
             let sim = ctx.sim();
             let ok = hook::age_replication(&mut sim.nodes[i].driver, Duration::from_secs(secs));
+            ctx.clock[i] += secs;
             out.count("tick");
             Some((None, if ok { "ok".into() } else { "age-failed".into() }))
         }
@@ -454,30 +469,44 @@ fn exec_inner(ctx: &mut Ctx, out: &mut Out, ws: &[&str]) -> Option<(Option<Strin
                 }
                 None => rt_now.iter().copied().take(CLOSE_GROUP).collect(),
             };
-            // oracle (2b): the first periodic replication of a node that holds records (nothing throttled yet) reaches
-            // EVERY replication candidate — in particular the peer sitting exactly on the range boundary
-            if !ctx.served[i] && !ctx.held[i].is_empty() {
-                let want: Vec<String> = cand_now.iter().map(|c| c.to_string()).collect();
-                if targets_of(ctx, &log) != want {
-                    let what = format!(
-                        "node {i} holds records and replicated to [{}], its replication candidates are [{}] (range {:?})",
-                        targets_of(ctx, &log).join(","),
-                        want.join(","),
-                        ctx.ranges[i].as_ref().map(|r| r.to_string())
-                    );
-                    fail(out, ctx, "advertises_everything", what);
-                }
-                if ctx.ranges[i].is_some() {
-                    out.count("interval:first-with-range");
+            // oracle (2b): a periodic replication that fires at least MIN_REPLICATION_INTERVAL after the node's previous
+            // trigger (or is its first), on a node that holds records, reaches EVERY replication candidate that has not
+            // received a list from it during the last REPLICATION_TIMEOUT — in particular the peer sitting exactly on the
+            // range boundary. (Simulated time; the constants are the property's reading of "periodic": 30 s / 45 s.)
+            let now = ctx.clock[i];
+            let inside_min_interval = matches!(ctx.last_trigger[i], Some(t) if now - t < MIN_INTERVAL_S);
+            if inside_min_interval {
+                out.count("interval:inside-min-interval");
+            } else {
+                ctx.last_trigger[i] = Some(now);
+                if !ctx.held[i].is_empty() {
+                    let due: Vec<String> = cand_now
+                        .iter()
+                        .filter(|c| !matches!(ctx.served_at[i].get(c), Some(t) if now - *t < TARGET_TIMEOUT_S))
+                        .map(|c| c.to_string())
+                        .collect();
+                    if targets_of(ctx, &log) != due {
+                        let what = format!(
+                            "node {i} holds records and replicated to [{}]; its replication candidates not served in the last {TARGET_TIMEOUT_S} s are [{}] (range {:?})",
+                            targets_of(ctx, &log).join(","),
+                            due.join(","),
+                            ctx.ranges[i].as_ref().map(|r| r.to_string())
+                        );
+                        fail(out, ctx, "advertises_everything", what);
+                    }
+                    out.count(if due.len() == cand_now.len() { "interval:all-candidates-due" } else { "interval:some-candidates-recently-served" });
                     if let Some(r) = &ctx.ranges[i] {
+                        out.count("interval:with-range");
                         if rt_now.iter().any(|p| ctx.uni.dists[i].get(p) == Some(r)) && cand_now.len() > CLOSE_GROUP {
                             out.count("interval:boundary-peer-in-range");
                         }
                     }
                 }
             }
-            if !log.reps.is_empty() {
-                ctx.served[i] = true;
+            for (p, _) in &log.reps {
+                if let Some(id) = ctx.uni.peer_ids.get(p) {
+                    ctx.served_at[i].insert(*id, now);
+                }
             }
             // oracle (2): every list is exactly the held index, with the record type the held bytes determine
             if !log.reps.is_empty() {
@@ -1141,6 +1170,12 @@ fn corpus(uni: &Universe) -> Vec<String> {
         v.push("deliver 1".into());
         v.push("dump".into());
     }
+    // a trigger on an empty index still starts the minimum interval: the record uploaded right after it is advertised
+    // by the first trigger that fires 30 s later, not before (shrunk from a thorough-tier oracle false alarm)
+    mesh2(&mut v, &[0]);
+    for l in ["interval 1", "seed 1 0 C", "interval 1", "tick 1 25", "interval 1", "tick 1 25", "interval 1", "deliver 1", "tick 1 25", "interval 1", "tick 1 25", "interval 1", "dump"] {
+        v.push(l.into());
+    }
     // K-g: scratchpads with different counters never converge
     mesh2(&mut v, &[1]);
     for l in ["seed 0 1 S1", "seed 1 1 S2", "interval 0", "deliver 1", "interval 1", "deliver 2", "tick 0 50", "tick 1 50", "interval 0", "deliver 3", "interval 1", "deliver 4", "dump"] {
@@ -1193,7 +1228,9 @@ fn main() {
         seeded: BTreeMap::new(),
         history: vec![],
         lossy: false,
-        served: vec![],
+        clock: vec![],
+        last_trigger: vec![],
+        served_at: vec![],
         slow_histories: 0,
     };
     if let Some(p) = &args.replay {
